@@ -384,4 +384,55 @@ example : ∀ a ∈ buildDecl.args, ∃ p ∈ buildDecl.params, a.pyName = p.nam
     (p.default ≠ .empty → CarriesDefault p a (intendedValue a [])) :=
   fun a ha => (unmentioned_shows_declared_default buildDecl a ha).2
 
+/-! ### Any SUBSET of the positionals may be given by flag
+
+The spelling language of `parse_spelling_partial` has no special form for "positional given by flag": it is a value-flag
+item (`Item.spaced` / `.eq` / `.glued`) whose slot happens to be positional, and a bare value (`Item.pos`) goes to
+`firstMissing`, the first positional slot that has no value YET — whatever filled the earlier ones.  So every subset of
+the positionals given by flag, with the remaining ones bare in slot order, is covered, for any number of positionals;
+the only ordering condition is the one forced by the meaning of "positional" (side condition 5): a by-flag positional
+stands before the first bare value of a LATER slot.  Instances with three required parameters:
+
+    def deploy(c, env, region, tag)      def notify(c)
+    deploy --env prod --region eu v1 notify          (first two by flag, the third bare, then a further task)
+    deploy prod --tag v1 eu notify                   (the last by flag BETWEEN the bare values) -/
+
+def deployDecl : TaskDecl :=
+  { name := T "deploy", opts := {}, params := [⟨T "env", .empty⟩, ⟨T "region", .empty⟩, ⟨T "tag", .empty⟩] }
+def notifyDecl : TaskDecl := { name := T "notify", opts := {}, params := [] }
+def posDecls : List TaskDecl := [deployDecl, notifyDecl]
+def posReg : List Ctx := [orEmpty deployDecl.ctx?, orEmpty notifyDecl.ctx?]
+
+def posCalls1 : List Call :=
+  [ { tname := T "deploy", ctx := orEmpty deployDecl.ctx?, items :=
+        [.spaced (T "--env") (T "prod") 0, .spaced (T "--region") (T "eu") 1, .pos (T "v1") 2] },
+    { tname := T "notify", ctx := orEmpty notifyDecl.ctx?, items := [] } ]
+def posCalls2 : List Call :=
+  [ { tname := T "deploy", ctx := orEmpty deployDecl.ctx?, items :=
+        [.pos (T "prod") 0, .spaced (T "--tag") (T "v1") 2, .pos (T "eu") 1] },
+    { tname := T "notify", ctx := orEmpty notifyDecl.ctx?, items := [] } ]
+
+example : posCalls1.flatMap Call.toks = [T "deploy", T "--env", T "prod", T "--region", T "eu", T "v1", T "notify"] := by decide
+example : posCalls2.flatMap Call.toks = [T "deploy", T "prod", T "--tag", T "v1", T "eu", T "notify"] := by decide
+
+/-- the theorem applies (first two positionals by flag, then a bare value, then a further task) … -/
+example : parseArgv (some coreCtx) posReg false (posCalls1.flatMap Call.toks) =
+    .ok { contexts := [coreCtx] ++ posCalls1.map Call.result, unparsed := [], remainder := [] } :=
+  parse_spelling_checked (some coreCtx) posReg false posCalls1 (by decide) (by decide)
+example : parseArgv none posReg false (posCalls2.flatMap Call.toks) =
+    .ok { contexts := posCalls2.map Call.result, unparsed := [], remainder := [] } :=
+  parse_spelling_checked none posReg false posCalls2 (by decide) (by decide)
+
+/-- … and both spellings deliver deploy(env='prod', region='eu', tag='v1') followed by notify() — the bare `v1` is not
+    given to `region`, and `notify` is not swallowed as a value -/
+example : (posCalls1.map Call.result).map Ctx.asKwargs =
+    [[(T "env", .s (T "prod")), (T "region", .s (T "eu")), (T "tag", .s (T "v1"))], []] := by decide
+example : (posCalls2.map Call.result).map Ctx.asKwargs =
+    [[(T "env", .s (T "prod")), (T "region", .s (T "eu")), (T "tag", .s (T "v1"))], []] := by decide
+
+/-- the same at the signature level (`parse_spelling_from_signatures`): mentions of the parameters `env`, `region`, `tag` -/
+example : sigChainOKb (some coreCtx) posDecls
+    [⟨T "deploy", [.longSpaced (T "env") (T "prod"), .longSpaced (T "region") (T "eu"), .pos (T "tag") (T "v1")]⟩,
+     ⟨T "notify", []⟩] = true := by decide
+
 end Inv.C01
